@@ -87,6 +87,7 @@ pub fn generate(seed: u64, thorough: bool) -> Library {
                     Block::Para(vec![vec![Inline::Word("see".into()), Inline::Link { text: "y".into(), key: c.clone(), ext: false }]]),
                 ],
                 trailing_newline: true,
+                bom: false,
             };
             docs.insert((*k).clone(), d);
         }
